@@ -259,7 +259,7 @@ def orth(u, normalize=True, zero_rtol=1e-15):
             alpha_jj = 1.0 if normalize else dot(vj, vj)
             vi -= vj * alpha_ij / alpha_jj
         beta_i_new = dot(vi, vi)
-        if beta_i_new / beta_i < zero_rtol:  # Detect zero vector
+        if beta_i == 0 or beta_i_new / beta_i < zero_rtol:  # Detect zero vector (also one that is exactly zero already)
             continue
         if normalize:
             vi /= np.sqrt(beta_i_new)
